@@ -575,9 +575,13 @@ def limit_family(binary, quick=True):
     cal_src = []
     for name, build, probe in JUMP_FAMILIES + [WHILE_EXIT[:3]]:
         cal_src += [build(10, 0), build(11, 0), build(10, 1)]
+    if os.environ.get("C04_SKIP_JUMP_FAMILIES") == "1":
+        cal_src = []
     cal = compile_sources(binary, cal_src)
     plans = []
     fams = [(n_, b_, p_, JUMP_LIMIT, JUMP_SIZES) for (n_, b_, p_) in JUMP_FAMILIES] + [WHILE_EXIT]
+    if os.environ.get("C04_SKIP_JUMP_FAMILIES") == "1":      # developer knob (mutation experiments only)
+        fams = []
     for k, (name, build, probe, jlimit, jsizes) in enumerate(fams):
         c = cal[3 * k:3 * k + 3]
         if any(x[0] != "ok" for x in c):
